@@ -7,7 +7,8 @@ the order and width of the target layout (spec/marshal_fmt.code_layout), or refu
 import struct
 import types
 import z3
-from pyvc.engine import Contract, Opaque, SObj, HSink
+from pyvc.engine import Contract, Opaque, SObj, HSink, Loop
+from pyvc.spec import spec, IntSeq
 from pyvc.types import Maker, Int, Const
 from pyvc.sym import And, Or, Not, Implies, If, Len, SInt, ZSeq, _ie
 from contracts.common import Registry
@@ -235,9 +236,22 @@ contract("xdis.marsh:_Marshaller.dump_code3", name="xdis.marsh:_Marshaller.dump_
 # _Marshaller.dump_code2 against the 2.3-2.7 layout of spec/marshal_fmt.code_layout.  Python 2 wants byte strings in
 # co_code, co_filename, co_name, co_lnotab and *inside* the names/varnames tuples: those go through dump_string, whose
 # bytes for v are the abstract chunk S(v) (TYPE_STRING, length, bytes); every other object is D(v) as above.  The two
-# name tuples have a concrete length here (2 and 3 entries): the per-entry loop is unrolled, so the order and framing of
-# the entries is proved for that length only (stated in the evidence as a bound of this unit).
+# name tuples have symbolic length; their per-entry loops carry invariants over the fold cat_s.
+SCH = z3.Function("SCH", z3.IntSort(), z3.SeqSort(z3.IntSort()))     # bytes dump_string writes for the abstract string with this handle
+NM = z3.Function("NM", z3.IntSort(), z3.IntSort(), z3.IntSort())     # handle of entry i of tuple w (0: co_names, 1: co_varnames)
+
+
+@spec
+def cat_s(w: int, k: int) -> IntSeq:
+    """the bytes dump_string writes for the first k entries of tuple w, in order"""
+    if k <= 0:
+        return []
+    return cat_s(w, k - 1) + SCH(NM(w, k - 1))
+
+
 def _schunk(eng, v):
+    if isinstance(v, SInt):
+        return SCH(_ie(v))
     tab = eng.__dict__.setdefault("dump_string_chunks", {})
     ent = tab.get(id(v))
     if ent is None:
@@ -252,44 +266,65 @@ def _dump_string_effect(eng, vals, result, exc):
 
 
 DUMP_STRING_ABSTRACT = Contract("xdis.marsh:_Marshaller.dump_string", name="xdis.marsh:_Marshaller.dump_string/abstract", effect=_dump_string_effect,
-                                note="the bytes dump_string writes for a value are abstract (S)")
+                                note="the bytes dump_string writes for a value are abstract (S / SCH)")
 PY2_STRING_FIELDS = ("co_code", "co_filename", "co_name", "co_lnotab")
 PY2_STRING_TUPLES = ("co_names", "co_varnames")
 
 
+_CUR = {}
+
+
 class PortableCode2(Maker):
+    """a 2.3-2.7 portable code object: counters symbolic, objects opaque, co_names / co_varnames tuples of *symbolic
+    length* whose entries are abstract strings (handles NM(w, i))"""
     def __call__(self, eng, name):
         from xdis.codetype.code20 import Code2
+        from pyvc.sym import SSeq
+        _CUR["eng"] = eng       # loop invariants have no `_engine`; the chunk tables live on the engine of this unit
         fields = {"__class__": Code2}
+        hs = []
         for f in ("co_argcount", "co_nlocals", "co_stacksize", "co_flags", "co_firstlineno"):
             fields[f] = SInt(z3.Int("%s.%s" % (name, f)))
         for f in ("co_code", "co_consts", "co_freevars", "co_cellvars", "co_filename", "co_name", "co_lnotab"):
             fields[f] = Opaque(f)
-        for f, n in zip(PY2_STRING_TUPLES, (2, 3)):       # different lengths: a count taken from the other tuple is seen
-            fields[f] = tuple(Opaque("%s[%d]" % (f, i)) for i in range(n))
-        return SObj(**fields), []
+        for w, f in enumerate(PY2_STRING_TUPLES):
+            n = z3.Int("%s.%s!len" % (name, f))
+            hs.append(n >= 0)
+            fields[f] = SSeq(n, (lambda i, w=w: SInt(NM(w, _ie(i)))), kind="tuple")
+        return SObj(**fields), hs
 
 
-def code2_post(self, x, _old_self, _engine):
-    want = _old_self.out + [ord("c")]
+def code2_want(x, old_out, eng, stop=None, k=None):
+    """the bytes the 2.3-2.7 layout prescribes for x after old_out; with stop=(tuple field, k): up to and including the
+    first k entries of that tuple (the state at the head of that tuple's loop)"""
+    want = old_out + [ord("c")]
     for kind, f in MF.code_layout((2, 7)):
         val = getattr(x, f)
         if kind == "i32":
             want = want + le32(val)
         elif f in PY2_STRING_TUPLES:
-            want = want + [ord("(")] + le32(len(val))
-            for item in val:
-                want = want + ZSeq(_schunk(_engine, item))
+            w = PY2_STRING_TUPLES.index(f)
+            want = want + [ord("(")] + le32(Len(val))
+            if stop == f:
+                return want + cat_s(w, k)
+            want = want + cat_s(w, Len(val))
         elif f in PY2_STRING_FIELDS:
-            want = want + ZSeq(_schunk(_engine, val))
+            want = want + ZSeq(_schunk(eng, val))
         else:
-            want = want + ZSeq(_chunk(_engine, val))
-    return [("layout", seq_eq(out_of(self), want))]
+            want = want + ZSeq(_chunk(eng, val))
+    return want
+
+
+def code2_post(self, x, _old_self, _engine):
+    return [("layout", seq_eq(out_of(self), code2_want(x, _old_self.out, _engine)))]
 
 
 contract("xdis.marsh:_Marshaller.dump_code2", configs={"2.7": {"_ver": "2.7"}},
-         params={"self": Marshaller(), "x": PortableCode2()}, ensures=code2_post, no_native_replay=True,
-         note="names/varnames tuples of two and three entries (loops unrolled): bound of this unit")
+         params={"self": Marshaller(), "x": PortableCode2()}, ensures=code2_post, no_native_replay=True, unfold_depth=2,
+         loops={0: Loop("for name in x.co_names",
+                        invariant=lambda self, x, _old_self, _k: out_of(self) == code2_want(x, _old_self.out, _CUR["eng"], "co_names", _k)),
+                1: Loop("for name in x.co_varnames",
+                        invariant=lambda self, x, _old_self, _k: out_of(self) == code2_want(x, _old_self.out, _CUR["eng"], "co_varnames", _k))})
 
 import contracts.marsh as _CM
 ALL_CONTRACTS = CONTRACTS + [EXT_MARSHAL_DUMPS, EXT_XDIS_DUMPS, DUMP_ABSTRACT, DUMP_STRING_ABSTRACT] + [c for c in _CM.CONTRACTS if c.qualname.startswith("_Marshaller.w_")]
